@@ -176,10 +176,14 @@ func (c *client) read(ctx context.Context, rreq *ocirequest.Request) (_ ociregis
 				return nil, err
 			}
 			resp1.Body.Close()
-			desc, err = descriptorFromResponse(resp1, ociregistry.Digest(rreq1.Digest), requireSize|requireDigest)
+			desc1, err := descriptorFromResponse(resp1, ociregistry.Digest(rreq1.Digest), requireSize|requireDigest)
 			if err != nil {
 				return nil, err
 			}
+			// The GET response describes the body we're about to
+			// return, so keep its size and media type: the digest
+			// is all that's needed from the HEAD response.
+			desc.Digest = desc1.Digest
 		}
 	}
 	return newBlobReader(resp.Body, desc), nil
